@@ -41,6 +41,16 @@ type Conn struct {
 	CloseGate chan struct{} // when set, every Close waits for it (to hold a client's Close open)
 	OnClose   func()        // called on entry of every Close, before the gate
 	active    atomic.Int32  // ReadFrom calls in progress
+	LogReads  bool          // keep a copy of what every successful ReadFrom handed to the reader
+	readLog   [][]byte
+}
+
+// ReadLog returns, in order, the bytes each successful read handed to the reader (what was "read from the socket":
+// a datagram longer than the reader's buffer is cut to the buffer, as a UDP socket does).
+func (c *Conn) ReadLog() [][]byte {
+	c.mu.Lock()
+	defer c.mu.Unlock()
+	return append([][]byte{}, c.readLog...)
 }
 
 // ActiveReads reports how many ReadFrom calls have not returned yet: a reader that stopped is one whose read returned.
@@ -75,7 +85,13 @@ func (c *Conn) ReadFrom(p []byte) (int, net.Addr, error) {
 		if d.Err != nil {
 			return 0, nil, d.Err
 		}
-		return copy(p, d.B), d.From, nil
+		n := copy(p, d.B)
+		if c.LogReads {
+			c.mu.Lock()
+			c.readLog = append(c.readLog, append([]byte{}, p[:n]...))
+			c.mu.Unlock()
+		}
+		return n, d.From, nil
 	case <-c.closed:
 		return 0, nil, net.ErrClosed
 	}
